@@ -260,3 +260,31 @@ func VerifC16_SelectionLemma() {
 	}
 	vReach("lemma")
 }
+
+// A writer for the buffered output that refuses every Write: Run still
+// returns under every completion order, and every task still runs.
+func VerifC16_WriterFails() {
+	vNativeReset()
+	n := 2
+	if vThorough() {
+		n = 3
+	}
+	s := newScenario(scenarioOpts{n: n, maxRetries: 1, outcomes: oErr})
+	s.buffered = true
+	s.writer = failingWriter{}
+	s.build()
+	err := s.run()
+	vObserve("failed", err != nil)
+	anyFailed := false
+	for i := 0; i < s.n; i++ {
+		if s.final(i) == oErr {
+			anyFailed = true
+		}
+	}
+	if !anyFailed {
+		for i := 0; i < s.n; i++ {
+			vAssert("writer-fails/every-task-ran", s.final(i) == oNil)
+		}
+	}
+	vReach("ran")
+}
